@@ -5,6 +5,9 @@ import (
 )
 
 func skipMultilineComment(p *parser.Parser) (err error) {
+	// the comment ends at `=end`, wherever that falls in the token stream
+	isPrevEqual := false
+
 	for {
 		t, err := p.Read()
 		if err != nil {
@@ -15,13 +18,10 @@ func skipMultilineComment(p *parser.Parser) (err error) {
 			return nil
 		}
 
-		nextT, err := p.Read()
-		if err != nil {
-			return err
-		}
-
-		if t.IsEqualIdentifier() && nextT.IsTargetIdentifier("end") {
+		if isPrevEqual && t.IsTargetIdentifier("end") && !t.IsBeforeSpace {
 			return nil
 		}
+
+		isPrevEqual = t.IsEqualIdentifier()
 	}
 }
